@@ -10,7 +10,7 @@
      value  := L:<hex> | W:<path>
      path   := "." | seg(/seg)*
      action := W <path> <hex> | M <path> <ro> | X <path> | C <path> | E <hexk> <hexv> | P <path> <keep>
-             | D <id> <bad> | G <h> <neg> | O | F | K | T | Z | N (kill) | Y (kill; wait) | U (wait) | I <neg> <hexprog> action
+             | D <id> <bad> | G <h> <neg> | O | F | K | T | Z | N (kill) | Y (kill; wait) | U (wait) | H <neg> <hexprog> (exec) | I <neg> <hexprog> action
      -> per script "<verdict> regs=.. runs=.. bg=../../.. wp=<0|1> setup=<env>@<tree> probes=<n>(;<cwd>@<env>@<tree>)* conds=.. final=<tree>"
         joined by " | ", then " || root=<0|1> removals=<n> cancelled=<0|1> refcount=<n> alone=<ok|DIFF>"
 
@@ -63,6 +63,7 @@ let rec parse_action () : action =
   | "G" -> let h = next_int () in ABg (nat_of_int h, bool_of (next ()))
   | "O" -> AProbe | "F" -> AFail | "K" -> ASkip | "T" -> AStop | "Z" -> APanic
   | "N" -> AKill | "Y" -> AKillWait | "U" -> AWait
+  | "H" -> let neg = bool_of (next ()) in AExec (neg, bytes_of_hex (next ()))
   | "I" -> let neg = bool_of (next ()) in let prog = bytes_of_hex (next ()) in AIfExec (neg, prog, parse_action ())
   | t -> failwith ("bad action " ^ t)
 
